@@ -263,6 +263,30 @@ func c13Claim(c *Ctx) {
 			ok = !byp && !fromFail && len(g.Find(put)) >= 1
 		}
 		c.R.Checkf(rule, "recycle-only-after-claim", c.pos(f.Pos()), ok, "the worker hands its channel back to the pool only on paths where the claim CAS (refs 0 -> sentinel) succeeded")
+		// the same holds for the worker's deferred handlers (they run on a panic, without any claim): none recycles the
+		// channel, and none unmaps the queue by key alone
+		badLit := ""
+		for _, u := range litUnits(f) {
+			core.EachCall(u.Body, core.Deep, func(call *ast.CallExpr) {
+				recv, name, isM := methodCall(call)
+				if !isM {
+					return
+				}
+				if name == "Put" && strings.HasSuffix(core.ExprStr(recv), ".queueChPool") && badLit == "" {
+					badLit = "a function literal of convoy returns the channel to the pool at " + c.pos(call.Pos())
+				}
+				if name == "Delete" && strings.HasSuffix(core.ExprStr(recv), ".queues") && badLit == "" {
+					badLit = "a function literal of convoy unmaps the queue by key at " + c.pos(call.Pos())
+				}
+			})
+		}
+		c.R.Checkf(rule, "no-recycle-without-claim-in-deferred-handlers@convoy", c.pos(f.Pos()), badLit == "",
+			"no deferred handler of the worker recycles the channel or unmaps the queue by key%s", func() string {
+				if badLit != "" {
+					return " — VIOLATED: " + badLit + ": after a panicking task the channel still holds this flow's queued tasks; the next flow that takes it from the pool runs them as its own (and a by-key delete can remove a successor queue)"
+				}
+				return ""
+			}())
 		// the idle test precedes the claim
 		idle := g.Conds(func(e ast.Expr) bool {
 			s := core.ExprStr(e)
